@@ -65,11 +65,11 @@ instance : FromJson CVal where fromJson? := cvalOfJson
 instance : ToJson CVal where toJson := cvalToJson
 
 def envOf (files : List String) : Env :=
-  { tbl := KskmGen.configSchema, algNames := KskmGen.algorithmDNSSEC, fileExists := fun s => files.contains s }
+  { tbl := KskmGen.configSchema, algNames := KskmGen.algorithmDNSSEC, fileExists := fun s => files.contains s,
+    kskTtlFallback := KskmGen.dnsTtlFallback.map CVal.int }
 
 /-- the F3 behaviour switch, from the exit statuses observed by execution -/
-def validationCaughtNow : Bool :=
-  List.lookup "validation_error" KskmGen.exitStatusObserved == (List.lookup "config" KskmGen.exitCodes).map Int.ofNat
+def validationCaughtNow : Bool := validationCaughtOf KskmGen.exitStatusObserved KskmGen.exitCodes
 
 def outcomeOfString (s : String) : Except String LoaderOutcome :=
   match s with
